@@ -76,7 +76,14 @@ Qed.
 Lemma mctx_eta c : {| mbuf := mbuf c; mfds := mfds c |} = c.
 Proof. destruct c; reflexivity. Qed.
 
-(* no hypothesis on the length: beyond 255 bytes both refuse and leave the context as it was *)
+Lemma slice_mid (a : list N) x s r : slice (a ++ [x] ++ s ++ r) (len a + 1) (len s) = s.
+Proof.
+  unfold slice. replace (len a + 1) with (len (a ++ [x])) by (rewrite len_app; reflexivity).
+  rewrite (app_assoc a [x]), skipnN_app_len. apply firstnN_app_len.
+Qed.
+
+(* no hypothesis at all: whatever makes the Variant wrapper refuse (more than 255 bytes, a signature the protocol
+   forbids) makes the generated code refuse, and both leave the context as it was *)
 Theorem derive_enum_marshal_variant be k p c : pay_matches k p = true ->
   derive_case_marshal be k p c = marshal_t be (VVariant (case_ty k) (payload_val p)) c.
 Proof.
@@ -90,13 +97,16 @@ Proof.
       by (rewrite !len_app; change (len [0]) with 1; lia).
     change (marshal_t be (VVariant (case_ty (CFields named rs)) (VStruct vs)) c)
       with (if 255 <? len s then (c, false)
-            else marshal_t be (VStruct vs) {| mbuf := write_signature s (mbuf c); mfds := mfds c |}).
+            else if is_ok (validate_signature s) then marshal_t be (VStruct vs) {| mbuf := write_signature s (mbuf c); mfds := mfds c |}
+            else (c, false)).
     destruct (N.ltb_spec 255 (len s)) as [_|_].
     + rewrite firstnN_app_len. now rewrite mctx_eta.
-    + rewrite set_byte_at.
-      rewrite (derive_struct_marshal_tuple be (map (marshal_t be) vs) vs).
-      2:{ clear. induction vs as [|v vs IH]; cbn [map]; constructor; auto. }
-      reflexivity.
+    + rewrite set_byte_at, slice_mid.
+      destruct (is_ok (validate_signature s)); cbn [negb].
+      * rewrite (derive_struct_marshal_tuple be (map (marshal_t be) vs) vs).
+        2:{ clear. induction vs as [|v vs IH]; cbn [map]; constructor; auto. }
+        reflexivity.
+      * rewrite firstnN_app_len. now rewrite mctx_eta.
 Qed.
 
 Lemma type_ok_validate t : type_ok t = true -> is_ok (validate_signature (to_str t)) = true.
@@ -108,11 +118,15 @@ Proof.
   now rewrite E.
 Qed.
 
-Theorem sig_macro_marshal_variant be r v c : type_ok (sig_r r) = true ->
+(* dbus_variant_sig! validates through SignatureWrapper::new, which includes the length limit *)
+Theorem sig_macro_marshal_variant be r v c :
   sig_macro_marshal be r v c = marshal_t be (VVariant (sig_r r) v) c.
 Proof.
-  intros H. unfold sig_macro_marshal, sig_str_r. rewrite (type_ok_validate _ H). cbn [marshal_t].
-  destruct (type_ok_parts _ H) as (_ & _ & Hl). destruct (N.ltb_spec 255 (len (to_str (sig_r r)))) as [|_]; [lia|]. reflexivity.
+  unfold sig_macro_marshal, sig_str_r. cbn [marshal_t].
+  destruct (is_ok (validate_signature (to_str (sig_r r)))) eqn:E.
+  - pose proof (validate_signature_len _ E) as Hl.
+    destruct (N.ltb_spec 255 (len (to_str (sig_r r)))) as [|_]; [lia|]. reflexivity.
+  - destruct (255 <? len (to_str (sig_r r))); reflexivity.
 Qed.
 
 Theorem var_macro_marshal_variant be r v c : var_macro_marshal be r v c = marshal_t be (VVariant (sig_r r) v) c.
